@@ -27,11 +27,27 @@ struct Ghost {
 #[kani::stub(tracing::callsite::DefaultCallsite::interest, tstubs::interest)]
 #[kani::stub(tracing::Event::dispatch, tstubs::dispatch)]
 fn c14_latest_ping_only() {
+    latest_ping_only::<3>();
+}
+
+/// Thorough rung: every history of 4 operations.
+#[kani::proof]
+#[kani::unwind(12)]
+#[kani::stub(rand::random, vstubs::any_random)]
+#[kani::stub(tokio::time::Instant::now, cstubs::now)]
+#[kani::stub(tracing::__macro_support::__is_enabled, tstubs::is_enabled)]
+#[kani::stub(tracing::callsite::DefaultCallsite::interest, tstubs::interest)]
+#[kani::stub(tracing::Event::dispatch, tstubs::dispatch)]
+fn c14_latest_ping_only_4_steps() {
+    latest_ping_only::<4>();
+}
+
+fn latest_ping_only<const STEPS: usize>() {
     let mut t = PingTracker::default();
     let mut g = Ghost { outstanding: false, data: [0; 8], sent_ms: 0, rtt_ms: None };
     let mut now: u64 = 0;
     let mut step = 0;
-    while step < 3 {
+    while step < STEPS {
         let op: u8 = kani::any();
         match op % 3 {
             0 => {
